@@ -40,10 +40,12 @@ func (n NativeAppendFn) Call(i *Interpreter, arguments []interface{}) (interface
 	if !ok {
 		return nil, fmt.Errorf("append function only works on arrays")
 	}
-	// Append all other arguments to the array
-	array = append(array, arguments[1:]...)
+	// Build a new array holding the elements of the argument followed by the
+	// other arguments; the argument's own storage must not be shared or reused.
+	result := append([]interface{}{}, array...)
+	result = append(result, arguments[1:]...)
 
-	return array, nil
+	return result, nil
 }
 
 func (n NativeAppendFn) Arity() int {
@@ -78,10 +80,12 @@ func (n NativeRemoveFn) Call(i *Interpreter, arguments []interface{}) (interface
 		return nil, fmt.Errorf("array index out of bounds")
 	}
 
-	// Remove the element at the specified index
-	array = append(array[:index], array[index+1:]...)
+	// Build a new array without the element at the specified index; the
+	// argument itself stays as it is.
+	result := append([]interface{}{}, array[:index]...)
+	result = append(result, array[index+1:]...)
 
-	return array, nil
+	return result, nil
 }
 
 func (n NativeRemoveFn) Arity() int {
